@@ -334,7 +334,8 @@ fn configs(site: &CallSite, tier: Tier) -> Vec<Cfg> {
             _ => continue,
         };
         let n = Args::n_choices(kind);
-        let stride = if tier == Tier::Thorough || n <= 24 { 1 } else { n / 24 + 1 };
+        let stride = 1;
+        let _ = tier;
         let mut c = 1;
         while c < n {
             // optionals after the varied position are absent, so that its parameters directly follow it
@@ -552,12 +553,93 @@ fn histories(depth: usize, run: &mut Run) -> (u64, u64, u64) {
     (states, trans, complete)
 }
 
+/// C12, per method: every instruction-emitting method that needs a block, called (a) with no function open and
+/// (b) with a function open but no block selected, must return Err, leave every instruction of the module and the
+/// selection exactly as they were, and not panic; module-level methods never fail and never touch the selection.
+fn c12_sweep(sites: &[&CallSite]) -> (u64, Vec<Viol>) {
+    let res: Vec<Vec<Viol>> = sites
+        .par_iter()
+        .map(|site| {
+            let mut out = vec![];
+            for ctx in 0..3 {
+                // 0: nothing open; 1: function open, no block; 2: block open and then closed by a terminator
+                let mut args = Args::new(site.params);
+                args.word_base = 1;
+                args.word_step = 16;
+                let rep = json!({"kind": "builder-call", "method": site.name, "context": ctx});
+                let r = guarded(|| -> Result<(), String> {
+                    let mut b = Builder::new();
+                    for _ in 0..320 {
+                        b.id();
+                    }
+                    b.capability(spirv::Capability::Shader);
+                    if ctx >= 1 {
+                        b.begin_function(1, None, spirv::FunctionControl::NONE, 2).map_err(|e| format!("{:?}", e))?;
+                    }
+                    if ctx == 2 {
+                        b.begin_block(None).map_err(|e| format!("{:?}", e))?;
+                        b.nop().map_err(|e| format!("{:?}", e))?;
+                        b.ret().map_err(|e| format!("{:?}", e))?;
+                    }
+                    let before = snap(b.module_ref());
+                    let sel = (b.selected_function(), b.selected_block());
+                    let ret = (site.call)(&mut b, &args);
+                    let after = snap(b.module_ref());
+                    let sel2 = (b.selected_function(), b.selected_block());
+                    let failed = matches!(ret, Out::ResWord(Err(_)) | Out::ResUnit(Err(_)));
+                    let fallible = matches!(ret, Out::ResWord(_) | Out::ResUnit(_));
+                    if needs_block(site) {
+                        if !failed {
+                            return Err(format!("returned Ok with no block selected (selection {:?})", sel));
+                        }
+                        if after != before {
+                            return Err(format!("returned Err but the module changed: {} -> {}", before.brief(), after.brief()));
+                        }
+                        if sel2 != sel {
+                            return Err(format!("returned Err but the selection changed from {:?} to {:?}", sel, sel2));
+                        }
+                    } else {
+                        if fallible && failed {
+                            return Err("a module-level method returned Err".into());
+                        }
+                        if sel2 != sel {
+                            return Err(format!("a module-level method changed the selection from {:?} to {:?}", sel, sel2));
+                        }
+                        if flatten(&after).len() != flatten(&before).len() + 1 && !matches!(site.name, "memory_model") {
+                            return Err(format!("a module-level method emitted {} instructions", flatten(&after).len() as i64 - flatten(&before).len() as i64));
+                        }
+                    }
+                    Ok(())
+                });
+                match r {
+                    Err(p) => out.push(viol(format!("C12:method-panic:{}", site.name), format!("Builder::{} with no block selected (context {}) panics: {}", site.name, ctx, p), rep)),
+                    Ok(Err(why)) => out.push(viol(format!("C12:method:{}", site.name), format!("Builder::{} (context {}): {}", site.name, ctx, why), rep)),
+                    Ok(Ok(())) => {}
+                }
+            }
+            out
+        })
+        .collect();
+    let mut all = vec![];
+    for v in res {
+        all.extend(v);
+    }
+    (sites.len() as u64 * 3, all)
+}
+
 fn main() {
     let args: Vec<String> = std::env::args().collect();
     let mode = args.get(1).map(|s| s.as_str()).unwrap_or("C06");
     let tier = if args.iter().any(|a| a == "thorough") || std::env::var("VERIF_TIER").as_deref() == Ok("thorough") && !args.iter().any(|a| a == "quick") { Tier::Thorough } else { Tier::Quick };
     install_panic_hook();
     let sites: Vec<&CallSite> = gen::CALLS.iter().filter(|s| !STRUCTURAL.contains(&s.name)).collect();
+    if mode == "--c12" {
+        let (n, vs) = c12_sweep(&sites);
+        let mut seen = HashSet::new();
+        let arr: Vec<_> = vs.iter().filter(|v| seen.insert(v.key.clone())).map(|v| json!({"key": v.key, "what": v.what, "replay": v.replay})).collect();
+        println!("{}", json!({"methods": sites.len(), "calls": n, "violations": arr}));
+        return;
+    }
     let work: Vec<(&CallSite, Cfg)> = sites.iter().flat_map(|s| configs(s, tier).into_iter().map(move |c| (*s, c))).collect();
     let res: Vec<SiteResult> = work.par_iter().map(|(s, c)| check_site(s, c)).collect();
     if mode == "--c16" {
@@ -589,7 +671,7 @@ fn main() {
     run.set("evaluations", json!(work.len() as u64 + trans));
     run.set("distinct_nontrivial", json!(work.len() as u64 + complete));
     run.set("methods", json!(sites.len()));
-    run.set("rule", json!("part 1: one frozen call site per public instruction-emitting Builder method (1149 of 1153; the 4 structural ones are driven by part 2), each called in its legal context with positional arguments all distinct, for: implicit and explicit result id, every trailing run of optional parameters, list lengths 0/1/2, insertion at the beginning, module-level and in-block placement where both exist, every (quick: strided) enumerant / mask value of each value parameter with its grammar parameters; the emitted instruction must have the method's opcode, result type/id and the arguments in grammar order, sit in the right section, and the finished module must assemble, load and compare equal operand for operand, with the version set and a bound above every id. part 2: BFS closure over 21 Builder calls to depth d, every complete state through assemble -> load -> compare. non-trivial = call configurations + complete histories"));
+    run.set("rule", json!("part 1: one frozen call site per public instruction-emitting Builder method (1149 of 1153; the 4 structural ones are driven by part 2), each called in its legal context with positional arguments all distinct, for: implicit and explicit result id, every trailing run of optional parameters, list lengths 0/1/2, insertion at the beginning, module-level and in-block placement where both exist, every enumerant / mask value of each value parameter with its grammar parameters; the emitted instruction must have the method's opcode, result type/id and the arguments in grammar order, sit in the right section, and the finished module must assemble, load and compare equal operand for operand, with the version set and a bound above every id. part 2: BFS closure over 21 Builder calls to depth d, every complete state through assemble -> load -> compare. non-trivial = call configurations + complete histories"));
     run.set("exhaustive", json!(true));
     run.set("bounds", json!({"call_configurations": work.len(), "history_depth": tier.pick(6, 8), "history_alphabet": HOPS.len(), "history_states": states, "history_transitions": trans}));
     run.set("samples", json!(work.iter().step_by(work.len() / 5 + 1).map(|(s, c)| json!({"method": s.name, "config": format!("{:?}", c)})).collect::<Vec<_>>()));
